@@ -306,6 +306,22 @@ macro_rules! common_methods {
                     break;
                 }
             }
+            // ... and consumed from both ends in turn: call number i is next() when i % 3 == 0,
+            // next_back() otherwise, until the first None
+            s.push_str(" |");
+            let mut it = self.t.convex_hull();
+            for i in 0..lim + 2 {
+                let r = if i % 3 == 0 { it.next() } else { it.next_back() };
+                match r {
+                    Some(e) => {
+                        let _ = write!(s, " {}", e.fix().index());
+                    }
+                    None => break,
+                }
+                if i > lim {
+                    s.push_str(" toomany");
+                }
+            }
             s
         }
         fn line(&self, px: u64, py: u64, qx: u64, qy: u64) -> String {
